@@ -14,12 +14,36 @@ pub fn threads() -> usize {
 
 pub const STACK: usize = 64 << 20;
 
+static ORDER_SEED: std::sync::atomic::AtomicU64 = std::sync::atomic::AtomicU64::new(0x5EED);
+
+/// Seed of the job-order shuffle (set once from VERIF_SEED by `Ctx::new`).
+pub fn set_order_seed(seed: u64) {
+    ORDER_SEED.store(seed, Ordering::Relaxed);
+}
+
+/// Workloads are generated in a systematic order (version 1..40, level, mask ...). Executed in
+/// that order every worker thread would only ever see symbols of non-decreasing size, which is
+/// exactly the history that hides state kept between calls (a scratch buffer or cache that only
+/// grows). The pool therefore executes a seeded permutation of the job list: every worker sees
+/// big and small symbols, all modes and levels, interleaved.
+fn permutation(n: usize) -> Vec<u32> {
+    let mut order: Vec<u32> = (0..n as u32).collect();
+    let mut rng = oracle::rng::Rng::new(ORDER_SEED.load(Ordering::Relaxed) ^ 0x0bde_0bde ^ n as u64);
+    for i in (1..n).rev() {
+        let j = rng.below(i + 1);
+        order.swap(i, j);
+    }
+    order
+}
+
 /// Run `work(stats, &jobs[i], i)` for every i on a pool. Returns merged stats.
 /// `deadline`: if exceeded, remaining jobs are skipped and an inconclusive note is recorded.
 pub fn run<J: Sync>(jobs: &[J], deadline: Duration, work: impl Fn(&mut Stats, &J, usize) + Sync) -> Stats {
     let next = AtomicUsize::new(0);
     let timed_out = AtomicBool::new(false);
     let started = Instant::now();
+    let order = permutation(jobs.len());
+    let order = &order;
     let n = threads().min(jobs.len().max(1));
     let mut merged = Stats::new();
     let results: Vec<Stats> = std::thread::scope(|s| {
@@ -38,7 +62,8 @@ pub fn run<J: Sync>(jobs: &[J], deadline: Duration, work: impl Fn(&mut Stats, &J
                         if i >= jobs.len() {
                             break;
                         }
-                        if i % 64 == 0 && started.elapsed() > deadline {
+                        let i = order[i] as usize;
+                        if st.evaluations % 64 == 0 && started.elapsed() > deadline {
                             timed_out.store(true, Ordering::Relaxed);
                         }
                         if timed_out.load(Ordering::Relaxed) {
